@@ -106,6 +106,21 @@ Fixpoint print (r : re) : list N :=
   | Alt a b => [40; 63; 58] ++ print a ++ [124] ++ print b ++ [41]
   | Star a => [40; 63; 58] ++ print a ++ [41; 42]
   end.
+
+(* the same expressions as a user may write them: a closing square bracket outside a class stands for itself, and inside a
+   class only backslash, the square brackets, a leading caret and the hyphen need a backslash *)
+Definition lit_user (c : N) : list N := if (c =? 93) then [c] else lit c.
+Definition lit_in_class (c : N) : list N := if existsb (N.eqb c) [92; 91; 93; 94; 45] then [92; c] else [c].
+Fixpoint print_user (r : re) : list N :=
+  match r with
+  | Chr c => lit_user c
+  | Cls neg cs => [91] ++ (if neg then [94] else []) ++ flat_map lit_in_class cs ++ [93]
+  | Seq a b => print_user a ++ print_user b
+  | Alt a b => [40; 63; 58] ++ print_user a ++ [124] ++ print_user b ++ [41]
+  | Star a => [40; 63; 58] ++ print_user a ++ [41; 42]
+  | _ => print r
+  end.
+
 (* top level as a user would write it: an alternation without the surrounding group *)
 Definition print_top (r : re) : list N :=
   match r with Alt a b => print a ++ [124] ++ print b | _ => print r end.
